@@ -170,7 +170,7 @@ theorem probe_str (n : Nat) :
   rw [String.append_assoc]
   rfl
 
-theorem step_probe {cfg : Cfg} {w : World} (h : Inv cfg w) (p : Nat) :
+theorem step_probe {cfg : Cfg} (hpre : cfg.prealloc = none) {w : World} (h : Inv cfg w) (p : Nat) :
     Inv cfg (step w (.probe p)).1 ∧ (step w (.probe p)).1.panicked = w.panicked ∧
     (∀ P, getP w p = some P → P.alive = true →
       (step w (.probe p)).2 = s!"{P.maxLoans - P.loans.length}:ExceedsMaxLoans") := by
@@ -186,7 +186,7 @@ theorem step_probe {cfg : Cfg} {w : World} (h : Inv cfg w) (p : Nat) :
       exact ⟨h, rfl, fun P hP ha => by cases hP; exact absurd ha hal⟩
     have : ¬ ((!P0.alive) = true) := by simp [hal]
     rw [if_neg this]
-    obtain ⟨h1, P, hp1, epool, hbound⟩ := after_retrieve h hp hal
+    obtain ⟨h1, P, hp1, epool, hbound⟩ := after_retrieve hpre h hp hal
     obtain ⟨f1, f2, f3, f4, f5, f6, f7, f8, f9, f10, f11, f12, f13, f14, f15⟩ := epool.fields
     have hal1 : P.alive = true := f1.trans hal
     have M := (h1.p p P hp1).2 hal1
@@ -197,7 +197,7 @@ theorem step_probe {cfg : Cfg} {w : World} (h : Inv cfg w) (p : Nat) :
     have st0 : ProbeSt P P [] :=
       ⟨.refl _, M.fr, List.nodup_nil, fun c hc => (by cases hc), fun _ _ => rfl, rfl, rfl⟩
     have hn : P.maxLoans ≤ P.n := by
-      have := M.nEq; unfold Cfg.nChunks at this; omega
+      have := M.nEq; unfold Cfg.nChunks Cfg.fullChunks at this; rw [hpre] at this; dsimp only at this; omega
     obtain ⟨k1, k2, k3, k4⟩ := probeLoans_spec P (by rw [hcnt]; exact hbound) (P.n + 1) P [] st0 (by omega) (by omega)
     have k5 := probeRelease_spec P _ _ k1
     have hlen : (probeLoans P (P.n + 1) []).2.1.length = P.maxLoans - P.loans.length := by
